@@ -89,6 +89,19 @@ def space(tier):
         out.append(mk("%s { for (j = 0; j < 2; j++) { x += i * j; } }" % lp, ("for-nest", lp)))
         out.append(mk("%s { for (j = 0; j < i; j++) { y += j; x ^= i; } }" % lp, ("for-nest2", lp)))
         out.append(mk("%s { RxxV += i; mem_store_u8(i, x); }" % lp, ("for-regmem", lp)))
+    # empty statements, empty blocks and declarations between statements that use the loop variable
+    USE_I = ["x += i;", "y += (uint32_t)i;", "RdV = i;", "mem_store_u8(i, x);"]
+    NOPS = [";", "{ }", "{ ; }", "int32_t t = i;", "; ;"]
+    for lp in LOOPS[:3]:
+        for u1 in USE_I:
+            for nop in NOPS:
+                for u2 in USE_I[:3]:
+                    out.append(mk("%s { %s %s %s }" % (lp, u1, nop, u2), ("for-nop", lp, u1, nop, u2)))
+                out.append(mk("%s { %s %s }" % (lp, nop, u1), ("for-nop-first", lp, nop, u1)))
+                out.append(mk("%s { for (j = 0; j < 2; j++) { %s x += i + j; } y += (uint32_t)i; }" % (lp, nop), ("for-nop-inner", lp, nop)))
+    for c in conds:
+        for nop in NOPS[:3]:
+            out.append(mk("if (%s) { x += 1; %s y += (uint32_t)x; } else { %s x += 2; }" % (c, nop, nop), ("if-nop", c, nop)))
     if tier == "thorough":
         for c in CONDS:
             for lp in LOOPS:
